@@ -1962,7 +1962,7 @@ def probes_for(pid):
     for kind in ("swap-else", "range0", "flip-compare", "keywordise", "positionalise"):
         out.append({"pid": pid, "name": "probe:" + kind, "probe": ("rewrite", kind), "expect": None})
     # statement-level rewrites: the call evaluated first kept in a temporary, `a, b = f()` via a kept tuple, conjunctive asserts split
-    for kind in ("hoist-call", "split-unpack", "split-assert", "inline-local", "swap-independent", "dedent-else", "nest-after-return"):
+    for kind in ("hoist-call", "split-unpack", "split-assert", "inline-local", "swap-independent", "dedent-else", "nest-after-return", "extract-tail"):
         out.append({"pid": pid, "name": "probe:" + kind, "probe": ("statements", kind), "expect": None})
     for p in probes.source_files(REPO):
         rel = os.path.relpath(p, REPO)
